@@ -76,7 +76,10 @@ def grep_gate():
     """No Admitted/admit/Axiom/Parameter/...; Variable/Hypothesis/Context only inside a Section."""
     bad = []
     for p in sorted(TH.rglob("*.v")):
-        txt = strip_comments(p.read_text())
+        try:
+            txt = strip_comments(p.read_text())
+        except FileNotFoundError:      # a scratch file of a concurrent proof session that vanished between glob and read
+            continue
         # strip string literals
         txt_ns = re.sub(r'"[^"]*"', '""', txt)
         for m in FORBIDDEN.finditer(txt_ns):
@@ -129,13 +132,15 @@ def translate_all():
 
 
 def digest_changes():
-    """Names of the lexer / parser / emitter functions whose text differs from the pinned one (Syn/Pins_SrcDigest.v)."""
+    """Names of the functions of octave_mcp whose text differs from the pinned one (Src/Pin_<module>.v)."""
     gen = GEN / "SrcDigestGen.v"
-    pins = TH / "Syn" / "Pins_SrcDigest.v"
-    if not gen.exists() or not pins.exists():
+    pins = sorted((TH / "Src").glob("Pin_*.v"))
+    if not gen.exists() or not pins:
         return ["<digest files missing>"]
     cur = dict(re.findall(r"Definition (dg_\w+) : list N := (.*?)\.\n", gen.read_text()))
-    pin = dict(re.findall(r"Definition pinned_(dg_\w+) : list N := (.*?)\.\n", pins.read_text()))
+    pin = {}
+    for pf in pins:
+        pin.update(re.findall(r"Definition pinned_(dg_\w+) : list N := (.*?)\.\n", pf.read_text()))
     out = [n for n in pin if cur.get(n) != pin[n]]
     out += [n + " (new)" for n in cur if n not in pin]
     return out
@@ -311,7 +316,7 @@ def prepare(ctx, coq_targets, drivers, allowed_axioms=()):
             if not errs:
                 errs = [("make", log[-800:])]
             for where, msg in errs:
-                if "Pins_SrcDigest" in where:
+                if "theories/Src/Pin_" in where:
                     msg = ("source text differs from the text the hand-written model was validated against, in: "
                            + ", ".join(digest_changes())[:500] + " | " + msg)
                 ctx.obligation_failure(where, msg)
